@@ -596,7 +596,7 @@ def family_trace(sv, state, lim, t0, which=None, timer_value=5):
     return tr
 
 
-def pt_burst(rng, rig, lim, feed, refresh):
+def pt_burst(rng, rig, lim, feed, refresh, nonfinite_offset=False):
     """a whole program-track episode on a capable servo: a new trajectory starting shortly, its points
     every 0.2 s (some beyond the limits), status refreshes while it is tracked"""
     sv = rng.choice([n for n in rig.names if lim[n][4]])
@@ -606,6 +606,13 @@ def pt_burst(rng, rig, lim, feed, refresh):
     base = [rng.uniform(lo[i], hi[i]) for i in range(dof)]
     step = [rng.uniform(-1, 1) * (hi[i] - lo[i]) / rng.choice([4, 20, 100]) for i in range(dof)]
     npts = rng.randrange(3, 14)
+    if nonfinite_offset:
+        # OFFSET accepts nan/inf (float() does); the trajectory loaded on top of it must still be refused or
+        # kept finite and inside the limits (seeded change C20-r5m2)
+        offs = ['0'] * dof
+        offs[rng.randrange(dof)] = rng.choice(['nan', 'inf', '-inf', 'nan'])
+        feed('OFFSET=%s,%s\r\n' % (sv, ','.join(offs)), rng.choice([0, 10]))
+        npts = max(npts, 6)
     for pid in range(npts):
         coords = [repr(round(base[i] + step[i] * pid, 4)) for i in range(dof)]
         st = repr(start) if pid == 0 else '*'
@@ -614,7 +621,7 @@ def pt_burst(rng, rig, lim, feed, refresh):
             feed('STATUS=%s\r\n' % sv, rng.choice([0, 10, 100]))
         if rng.random() < 0.3:
             refresh(rng.choice([10, 103, 205]))
-    for _ in range(rng.randrange(0, 5)):
+    for _ in range(rng.randrange(0, 5) + (3 if nonfinite_offset else 0)):
         if rng.random() < 0.5:
             refresh(rng.choice([205, 1024, 5000]))
         else:
